@@ -337,6 +337,12 @@ RunResult run_qsl(const Program &p, bool trace) {
                         sim::R->ctr.probe("list_itr_consecutive_removals");
                     }
                 } else if (!any_insert && a < rm_pct + set_pct) {
+                    // a NULL replacement cannot be told from "no element" by get/peek/pop afterwards: it is refused (and changes nothing)
+                    if (r2.below(100) < (uint64_t)again_pct / 2) {
+                        int rcn = D->kind == K_QUEUE ? m_queue_itr_set_data((m_queue_itr_t *)itr, nullptr) : D->kind == K_STACK ? m_stack_itr_set_data((m_stack_itr_t *)itr, nullptr) : m_list_itr_set_data((m_list_itr_t *)itr, nullptr);
+                        sim::R->ctr.probe("itr_set_null");
+                        if (rcn == 0) VIOL("C12", "C12:itr-set-null-accepted", "%s iterator set with a NULL value returned 0", kname());
+                    }
                     long nv = D->next_val++;
                     int rc = D->kind == K_QUEUE ? m_queue_itr_set_data((m_queue_itr_t *)itr, cell(nv)) : D->kind == K_STACK ? m_stack_itr_set_data((m_stack_itr_t *)itr, cell(nv)) : m_list_itr_set_data((m_list_itr_t *)itr, cell(nv));
                     if (rc != 0) VIOL("C12", "C12:itr-set-failed", "%s iterator set rc=%d", kname(), rc);
